@@ -584,3 +584,20 @@ Proof.
   intros L F. assert (R : refuses c s = true) by (unfold refuses; rewrite L, F; apply orb_true_r).
   cbn [exec]. unfold set_argument, set_logic, build_trunk. rewrite R. repeat split. ifs; reflexivity.
 Qed.
+
+(* non-vacuity of the hypotheses of the limit / lock theorems *)
+Example ex_exceeded_unfinished :
+  let c := ex_cfg (Some 2%Z) None in let s := run c [SetLogic; SetArgument; Step false false; Step false false] in
+  finished s = false /\ exceeded c s = true /\ hist s = 2.
+Proof. vm_compute. auto. Qed.
+
+Example ex_time_limit_unfinished :
+  let c := ex_cfg None (Some 5%Z) in let s := run c [SetLogic; SetArgument; Step false false] in
+  finished s = false /\ has_time_limit c = true.
+Proof. vm_compute. auto. Qed.
+
+Example ex_started : started (run (ex_cfg None None) [SetArgument; AddRule; SetLogic]) = true.
+Proof. vm_compute. reflexivity. Qed.
+
+Example ex_big_limit : (Z.of_nat (c_n (ex_cfg None None)) < 5)%Z.
+Proof. vm_compute. reflexivity. Qed.
